@@ -47,7 +47,7 @@ PLAN = {
              title="terminate / interrupt"),
  "C12": dict(machines=["hier2", "policy1", "policy2", "policy3", "compl"], profile=THROW, mc=MC_THROW, invariants=["P_C12"],
              title="exceptions"),
- "C13": dict(configs=ALL + ["back_circ"], machines=["flat", "ortho", "hier2", "hier3", "compl", "block"], profile=dict(MIXED, throws=0.1), mc=MC_PLAIN, invariants=[],
+ "C13": dict(configs=ALL + ["back_circ"], machines=["flat", "ortho", "hier2", "hier3", "compl", "block", "pseudo"], profile=dict(MIXED, throws=0.1), mc=MC_PLAIN, invariants=[],
              title="back-end / policy / strategy equivalence"),
  "C14": dict(machines=["fe_flat", "fe_hier2", "fe_guards"], profile=dict(PLAIN, subs=0.1), mc=MC_PLAIN, invariants=["P_C01", "P_C02"],
              frontends={"functor": ALL, "basic": ALL, "puml": ["back", "back11", "mp11", "mp11_fct"]},
